@@ -316,10 +316,11 @@ def run(ctx: Any, prog: Program) -> None:
         return '?' + U(e)
     # save side
     fold_consts = {'HEADER_LUMP': fold.global_('HEADER_LUMP')}
+    sv_loop_vars = {l.target.id for l in walk_no_nested(sv) if isinstance(l, ast.For) and isinstance(l.target, ast.Name)}
     hdr_fmt = fold_consts['HEADER_LUMP']
     n_slots = 4
     for n in walk_no_nested(sv):
-        if isinstance(n, ast.Call) and dotted(n.func) == 'defer.set_data' and len(n.args) == 5 and dotted(n.args[0]) == 'lump_name':
+        if isinstance(n, ast.Call) and dotted(n.func) == 'defer.set_data' and len(n.args) == 5 and isinstance(n.args[0], ast.Name) and n.args[0].id in sv_loop_vars:
             roles = [role(a) for a in n.args[1:]]
             p = bsp.parents.get(bsp.parents.get(n))
             cur = n
@@ -438,7 +439,7 @@ def run(ctx: Any, prog: Program) -> None:
     for n in walk_no_nested(sv):
         if isinstance(n, ast.Call) and dotted(n.func) == 'struct.pack' and n.args:
             f_ = _fmt_of(n.args[0])
-            if f_ is not None and '4s' in f_ and any(isinstance(x, ast.Name) and x.id == 'game_lump' for a in n.args[1:] for x in ast.walk(a)):
+            if f_ is not None and '4s' in f_ and any(isinstance(x, ast.Attribute) and x.attr in ('id', 'flags') and isinstance(x.value, ast.Name) for a in n.args[1:] for x in ast.walk(a)):
                 pieces_l.append((n.lineno, f_))
         if isinstance(n, ast.Call) and dotted(n.func) == 'defer.defer' and len(n.args) >= 2 and dotted(n.args[0]) == 'game_lump.id':
             f_ = _fmt_of(n.args[1])
@@ -448,8 +449,11 @@ def run(ctx: Any, prog: Program) -> None:
     joined = ''.join(p.replace('<', '').replace(' ', '') for p in pieces)
     ctx.check('C10.B4', joined == st_fmt.fmt.replace('<', '').replace(' ', ''), bsp, sv, f'game-lump directory entry: save() writes {pieces} but read() unpacks GameLump.ST = {st_fmt.fmt!r}',
               func='BSP.save', text='game lump directory record')
-    id_rev_w = any('game_lump.id[::-1]' in U(n) for n in walk_no_nested(sv) if isinstance(n, ast.Call))
-    id_rev_r = any(U(n).replace(' ', '') == 'game_lump_id=game_lump_id[::-1]' for n in walk_no_nested(rd) if isinstance(n, ast.Assign))
+    def _is_reversal(e: ast.AST) -> bool:
+        return isinstance(e, ast.Subscript) and isinstance(e.slice, ast.Slice) and e.slice.lower is None and e.slice.upper is None and isinstance(e.slice.step, ast.UnaryOp) \
+            and isinstance(e.slice.step.op, ast.USub) and isinstance(e.slice.step.operand, ast.Constant) and e.slice.step.operand.value == 1
+    id_rev_w = any(_is_reversal(a) and isinstance(a.value, ast.Attribute) and a.value.attr == 'id' for n in walk_no_nested(sv) if isinstance(n, ast.Call) for a in n.args)
+    id_rev_r = any(isinstance(n, ast.Assign) and _is_reversal(n.value) and isinstance(n.value.value, ast.Name) and dotted(n.targets[0]) == n.value.value.id for n in walk_no_nested(rd))
     ctx.shape('C10.B4', id_rev_w and id_rev_r, bsp, sv, 'game lump ids are stored reversed: both save() and read() must reverse them', func='BSP.save', text='game lump id reversal')
     h1w = any(isinstance(n, ast.Call) and dotted(n.func) == 'struct.pack' and n.args and dotted(n.args[0]) == 'HEADER_1' and len(n.args) == 3 for n in walk_no_nested(sv))
     h1r = any(isinstance(n, ast.Call) and dotted(n.func) == 'struct_read' and dotted(n.args[0]) == 'HEADER_1' for n in walk_no_nested(rd))
@@ -474,7 +478,8 @@ def run(ctx: Any, prog: Program) -> None:
         obj = U(c.args[0]).split('.')[0]
         ok = guard is not None and f'{obj}.is_compressed' in U(guard.test)
         ctx.check('C10.B5', ok, bsp, c, f'compress_lzma({U(c.args[0])}) must be applied exactly when {obj}.is_compressed is set', func='BSP.save', text=f'compress {obj} iff flagged')
-        if obj == 'lump' and guard is not None:
+        plain_lump = any(isinstance(a_, ast.Assign) and any(dotted(t_) == obj for t_ in a_.targets) and isinstance(a_.value, ast.Subscript) and dotted(a_.value.value) == 'self.lumps' for a_ in ast.walk(sv))
+        if plain_lump and guard is not None:
             tsrc = U(guard.test)
             if 'PAKFILE' in tsrc:
                 ctx.check('C10.B5', True, bsp, guard, 'the pakfile lump must never be LZMA-compressed', func='BSP.save', text='PAKFILE never compressed')
@@ -491,8 +496,9 @@ def run(ctx: Any, prog: Program) -> None:
                 ctx.check('C10.B5', False, bsp, fcc[0], f'the fourCC slot is set to `{U(fcc[0].value)}` for compressed lumps and `{U(fz[0].value)}` otherwise: it must hold the uncompressed length / 0 '
                           '(read() takes `> 0` as the compressed flag and the engine uses the value as the size)', func='BSP.save', text='fourCC = uncompressed length / 0')
             else:
-                ctx.shape('C10.B5', U(fcc[0].value) == 'len(lump.data)', bsp, fcc[0], 'uncompressed length expression', func='BSP.save', text='fourCC = uncompressed length / 0')
-    rflag = [n for n in walk_no_nested(rd) if isinstance(n, ast.If) and U(n.test) == 'uncomp_size > 0']
+                ctx.shape('C10.B5', U(fcc[0].value) == f'len({obj}.data)', bsp, fcc[0], 'uncompressed length expression', func='BSP.save', text='fourCC = uncompressed length / 0')
+    rflag = [n for n in walk_no_nested(rd) if isinstance(n, ast.If) and isinstance(n.test, ast.Compare) and len(n.test.ops) == 1 and isinstance(n.test.ops[0], ast.Gt) and isinstance(n.test.left, ast.Name)
+             and isinstance(n.test.comparators[0], ast.Constant) and n.test.comparators[0].value == 0 and any(isinstance(x, ast.Attribute) and x.attr == 'is_compressed' for st in n.body for x in ast.walk(st))]
     ok = len(rflag) == 1 and 'lump.is_compressed = True' in U(rflag[0].body[0]) and 'decompress_lzma' in U(rflag[0]) \
         and 'lump.is_compressed = False' in U(rflag[0].orelse[0])
     ctx.shape('C10.B5', ok, bsp, rflag[0] if rflag else rd, 'read() must set is_compressed and decompress exactly when the fourCC slot is positive', func='BSP.read', text='read flag/decompress')
@@ -500,8 +506,8 @@ def run(ctx: Any, prog: Program) -> None:
     ok = len(gl) == 1 and 'decompress_lzma' in U(gl[0].body) if gl else False
     ok = bool(gl) and any('decompress_lzma' in U(s) for s in gl[0].body) and not any('decompress_lzma' in U(s) for s in gl[0].orelse)
     ctx.shape('C10.B5', ok, bsp, gl[0] if gl else rd, 'read() must decompress a game lump exactly when its compressed flag is set', func='BSP.read', text='game lump decompress')
-    dummy = [n for n in walk_no_nested(sv) if isinstance(n, ast.Assign) and U(n.targets[0]) == 'dummy_segment']
-    ok = len(dummy) == 1 and 'game_lumps[-1].is_compressed' in U(dummy[0].value)
+    dummy = [n for n in walk_no_nested(sv) if isinstance(n, ast.Assign) and isinstance(n.targets[0], ast.Name) and 'game_lumps[-1].is_compressed' in U(n.value)]
+    ok = len(dummy) == 1
     ctx.shape('C10.B5', ok, bsp, dummy[0] if dummy else sv, 'a trailing dummy directory entry is needed when the last game lump is compressed (sizes are derived from the next offset)', func='BSP.save', text='dummy game lump entry')
     glen = [n for n in walk_no_nested(sv) if isinstance(n, ast.Call) and dotted(n.func) == 'defer.set_data' and n.args and dotted(n.args[0]) == 'game_lump.id']
     ok = len(glen) == 1 and [U(a) for a in glen[0].args[1:]] == ['file.tell()', 'len(game_lump.data)']
@@ -519,7 +525,27 @@ def run(ctx: Any, prog: Program) -> None:
         filt_kw = next((k.value for k in enc[0].keywords if k.arg == 'filters'), None)
         filt_name = dotted(filt_kw.elts[0]) if isinstance(filt_kw, ast.List) and len(filt_kw.elts) == 1 else None
         ctx.shape('C10.B10', filt_name is not None, bf_, enc[0], 'the encoder is given one named filter dictionary', func='compress_lzma', text='lzma encoder filter')
-        rnames = [dotted(e) for e in unp[0].targets[0].elts]
+        rnames_raw = [dotted(e) for e in unp[0].targets[0].elts]
+        # what each unpacked local is, by how decompress_lzma uses it
+        def lz_role(nm: Optional[str]) -> str:
+            if nm is None:
+                return '?'
+            for d_ in ast.walk(dz):
+                if isinstance(d_, ast.Dict):
+                    for k_, v_ in zip(d_.keys, d_.values):
+                        if isinstance(k_, ast.Constant) and k_.value == 'dict_size' and dotted(v_) == nm:
+                            return 'dict_size'
+                if isinstance(d_, ast.BinOp) and isinstance(d_.op, (ast.Mod, ast.FloorDiv)) and dotted(d_.left) == nm and isinstance(d_.right, ast.Constant) and d_.right.value == 9:
+                    return 'props'
+                if isinstance(d_, ast.Call) and dotted(d_.func) == 'divmod' and len(d_.args) == 2 and dotted(d_.args[0]) == nm and isinstance(d_.args[1], ast.Constant) and d_.args[1].value == 9:
+                    return 'props'
+                if isinstance(d_, ast.Compare) and len(d_.ops) == 1 and isinstance(d_.left, ast.Call) and dotted(d_.left.func) == 'len' and dotted(d_.comparators[0]) == nm:
+                    return 'uncomp_size'
+                if isinstance(d_, ast.Compare) and len(d_.ops) == 1 and dotted(d_.left) == nm and isinstance(d_.comparators[0], ast.Constant) and isinstance(d_.comparators[0].value, bytes):
+                    return 'sig'
+            return 'comp_size'
+        rnames = [lz_role(n_) for n_ in rnames_raw]
+        ctx.shape('C10.B10', sorted(rnames) == ['comp_size', 'dict_size', 'props', 'sig', 'uncomp_size'], bf_, unp[0], f'the five header fields of decompress_lzma are told apart by their use (got {rnames})', func='decompress_lzma', text='lzma header roles')
         hdr = dict(zip(rnames, packs_[0].args))
         # dict_size: the header value is the filter's own entry
         ds = hdr.get('dict_size')
@@ -532,8 +558,8 @@ def run(ctx: Any, prog: Program) -> None:
         psrc = U(pdef).replace(' ', '') if pdef is not None else ''
         want = f"({filt_name}['pb']*5+{filt_name}['lp'])*9+{filt_name}['lc']"
         ctx.check('C10.B10', psrc == want, bf_, pdef if pdef is not None else packs_[0], f'props byte is `{psrc}`; the decoder splits it as lc = p % 9, lp = (p // 9) % 5, pb = (p // 9) // 5, i.e. it must be `{want}`', func='compress_lzma', text='header props formula')
-        dsrc = U(dz).replace(' ', '')
-        ctx.shape('C10.B10', ('lc=props%9' in dsrc and 'props//=9' in dsrc and 'pb=props//5' in dsrc and 'lp=props%5' in dsrc) or ('props,lc=divmod(props,9)' in dsrc and 'pb,lp=divmod(props,5)' in dsrc), bf_, dz, 'decompress_lzma splits props as lc = p % 9; p //= 9; pb = p // 5; lp = p % 5', func='decompress_lzma', text='props split')
+        dsrc = U(dz)
+        ctx.shape('C10.B10', ('lc = props % 9' in dsrc and 'props //= 9' in dsrc and 'pb = props // 5' in dsrc and 'lp = props % 5' in dsrc) or ('props, lc = divmod(props, 9)' in dsrc and 'pb, lp = divmod(props, 5)' in dsrc), bf_, dz, 'decompress_lzma splits props as lc = p % 9; p //= 9; pb = p // 5; lp = p % 5', func='decompress_lzma', text='props split')
         sizes = (U(hdr.get('uncomp_size')) if hdr.get('uncomp_size') is not None else '', U(hdr.get('comp_size')) if hdr.get('comp_size') is not None else '')
         ctx.check('C10.B10', sizes[0] == f'len({cz.args.args[0].arg})' and sizes[1].startswith('len('), bf_, packs_[0], f'header sizes are {sizes}: uncompressed length of the input, then length of the encoded stream', func='compress_lzma', text='header sizes')
     # ---- B6 --------------------------------------------------------------------------------------------
